@@ -24,6 +24,7 @@ type op struct {
 	Cap   int    // sub: channel capacity
 	I     int    // subscriber index
 	Adv   string // "half" | "interval" | "next" | "2x" | "1ms"
+	More  int    // sub: this many further channels in the SAME Subscribe call (one shared context)
 }
 
 type batCase struct {
@@ -38,6 +39,9 @@ func opStr(o op) string {
 	case "burst":
 		return fmt.Sprintf("burst(k%d x%d)", o.Key, o.N)
 	case "sub":
+		if o.More > 0 {
+			return fmt.Sprintf("sub(%s,cap=%d,channels=%d)", o.Style, o.Cap, 1+o.More)
+		}
 		return fmt.Sprintf("sub(%s,cap=%d)", o.Style, o.Cap)
 	case "read":
 		return fmt.Sprintf("read(s%d x%d)", o.I, o.N)
@@ -76,7 +80,8 @@ type subscriber struct {
 	dead       bool // subscribed after Close returned: silently dropped
 	maybeDead  bool // Subscribe issued while Close was in progress: either outcome
 	stop       chan struct{}
-	subscribed bool // Subscribe returned
+	subscribed bool          // Subscribe returned
+	group      []*subscriber // the subscribers of the same Subscribe call (including this one)
 }
 
 func (s *subscriber) got() []rcv {
@@ -98,6 +103,7 @@ type outcome struct {
 	departSaturated bool // ... and left in that state
 	mutexParked     bool
 	deliveries      int
+	multiSub        bool // a Subscribe call with several channels
 }
 
 type harness struct {
@@ -231,40 +237,55 @@ func (h *harness) issue(o op) {
 		h.issue(op{Kind: "batch", Key: o.Key})
 	case "sub":
 		ctx, cancel := context.WithCancel(context.Background())
-		s := &subscriber{ctx: ctx, cancel: cancel, ch: make(chan int, o.Cap), style: o.Style, subAt: time.Now(), firstIdx: len(h.log), dead: h.closeReturned, maybeDead: h.closeIssued, stop: make(chan struct{})}
-		h.subsMu.Lock()
-		h.subs = append(h.subs, s)
-		h.subsMu.Unlock()
-		h.out.nsubs++
-		if o.Style == "prompt" {
-			h.wg.Add(1)
-			h.errs.Go(func() {
-				defer h.wg.Done()
-				for {
-					select {
-					case v, ok := <-s.ch:
-						if !ok {
+		_ = cancel // kept in the subscribers
+		var group []*subscriber
+		var chans []chan<- int
+		for k := 0; k <= o.More; k++ {
+			s := &subscriber{ctx: ctx, cancel: cancel, ch: make(chan int, o.Cap), style: o.Style, subAt: time.Now(), firstIdx: len(h.log), dead: h.closeReturned, maybeDead: h.closeIssued, stop: make(chan struct{})}
+			group = append(group, s)
+			chans = append(chans, s.ch)
+		}
+		if o.More > 0 {
+			h.out.multiSub = true
+		}
+		for _, s := range group {
+			s.group = group
+			h.subsMu.Lock()
+			h.subs = append(h.subs, s)
+			h.subsMu.Unlock()
+			h.out.nsubs++
+			if o.Style == "prompt" {
+				h.wg.Add(1)
+				h.errs.Go(func() {
+					defer h.wg.Done()
+					for {
+						select {
+						case v, ok := <-s.ch:
+							if !ok {
+								s.mu.Lock()
+								s.closed = true
+								s.mu.Unlock()
+								return
+							}
 							s.mu.Lock()
-							s.closed = true
+							s.received = append(s.received, rcv{v, time.Now()})
 							s.mu.Unlock()
+						case <-s.stop:
 							return
 						}
-						s.mu.Lock()
-						s.received = append(s.received, rcv{v, time.Now()})
-						s.mu.Unlock()
-					case <-s.stop:
-						return
 					}
-				}
-			})
+				})
+			}
 		}
 		h.wg.Add(1)
 		h.errs.Go(func() {
 			defer h.wg.Done()
-			h.b.Subscribe(ctx, s.ch)
-			s.mu.Lock()
-			s.subscribed = true
-			s.mu.Unlock()
+			h.b.Subscribe(ctx, chans...)
+			for _, s := range group {
+				s.mu.Lock()
+				s.subscribed = true
+				s.mu.Unlock()
+			}
 		})
 	case "read", "drain":
 		if len(h.subs) == 0 {
@@ -300,7 +321,9 @@ func (h *harness) issue(o op) {
 		if !s.cancelled && s.style == "manual" && !s.dead && h.outstanding(s) > 52 {
 			h.out.departSaturated = true
 		}
-		s.cancelled = true
+		for _, g := range s.group {
+			g.cancelled = true // the channels of one Subscribe call share its context
+		}
 		s.cancel()
 	case "adv":
 		d := h.interval
@@ -739,7 +762,8 @@ func genCase(rt *rapid.T) batCase {
 		case k <= 9:
 			c.Ops = append(c.Ops, op{Kind: "adv", Adv: rapid.SampledFrom([]string{"half", "interval", "next", "2x", "1ms"}).Draw(rt, "adv")})
 		case k <= 12:
-			c.Ops = append(c.Ops, op{Kind: "sub", Style: rapid.SampledFrom([]string{"prompt", "prompt", "manual"}).Draw(rt, "style"), Cap: rapid.IntRange(0, 2).Draw(rt, "cap")})
+			c.Ops = append(c.Ops, op{Kind: "sub", Style: rapid.SampledFrom([]string{"prompt", "prompt", "manual"}).Draw(rt, "style"), Cap: rapid.IntRange(0, 2).Draw(rt, "cap"),
+				More: rapid.SampledFrom([]int{0, 0, 0, 1, 2}).Draw(rt, "more")})
 		case k == 13:
 			c.Ops = append(c.Ops, op{Kind: "burst", Key: rapid.IntRange(0, 2).Draw(rt, "key"), N: rapid.SampledFrom([]int{3, 20, 56, 60}).Draw(rt, "n")})
 		case k == 14:
@@ -766,7 +790,7 @@ func TestBatcher(t *testing.T) {
 			rt.Fatalf("C10 batcher violated: %v\ncase: %s", err, c)
 		}
 		var cls []string
-		for name, b := range map[string]bool{"suppressed-value": out.suppressed, "subscriber>buffer": out.saturated, "depart-with-full-buffer": out.departSaturated, "mutex-parked-at-settle": out.mutexParked, "rebatch-at-due-instant": out.raced} {
+		for name, b := range map[string]bool{"suppressed-value": out.suppressed, "subscriber>buffer": out.saturated, "depart-with-full-buffer": out.departSaturated, "mutex-parked-at-settle": out.mutexParked, "rebatch-at-due-instant": out.raced, "subscribe-with-several-channels": out.multiSub} {
 			if b {
 				cls = append(cls, name)
 			}
